@@ -295,7 +295,7 @@ def gen_eq(tier):
     return obs, facts
 
 
-FLOOR = {"quick": dict(eq=230, lines=150, ub=150), "thorough": dict(eq=400, lines=350, ub=400)}
+FLOOR = {"quick": dict(eq=230, lines=150, ub=150), "thorough": dict(eq=400, lines=270, ub=350)}
 
 
 def run(tier, seed, work):
